@@ -531,7 +531,8 @@ def bld_parse_trace(trace):
 
 def bld_pred(which):
     """property predicates on the IMPLEMENTATION's end-to-end trace; `which` selects the clauses (by property id)"""
-    def pred(case, trace):
+    def pred(case, trace, model=False):
+        """model=True: the trace is the model's own (it carries no information about service instances)"""
         W, L, tok_call, ops = bld_parse_case(case)
         steps = bld_parse_trace(trace)
         if steps is None:
@@ -619,7 +620,7 @@ def bld_pred(which):
             # service instances are created after start-up only to replace a service whose readiness check failed (that service alone,
             # from its own factory, once) or for a replacement worker (ops K / J)
             info = getattr(notes, "info", None)
-            if "C07" in which and op and op[0] not in "KJ" and not faulted:
+            if "C07" in which and op and op[0] not in "KJ" and not faulted and not model:
                 new = (info or {}).get("new", {})
                 if armed_call is not None and (op[0] == "X" or (op == "b")):
                     if new != {armed_call: 1}:
@@ -695,7 +696,7 @@ def bld_stream(ctx, which, flags_choices, n_quick, n_thorough, **kw):
     pred = bld_pred(which)
 
     def monitor(c, i, m):
-        return pred(c, i) is None or pred(c, m) is not None   # a clause the model itself does not satisfy gives no verdict
+        return pred(c, i) is None or pred(c, m, True) is not None   # a clause the model itself does not satisfy gives no verdict
 
     def nontrivial(c, m):
         st = bld_parse_trace(m) or []
